@@ -15,8 +15,11 @@ DICT_RECORDS = set()  # record classes that are dicts with a fixed key set (obj[
 
 class LoopSpec(object):
     def __init__(self, header, invariants, decreases=None, modifies=None, ghost=None, body_facts=(), types=None, body_post=(),
-                 body_always=(), exit_post=None):
+                 body_always=(), exit_post=None, entry_ghost=None):
         self.types = dict(types or {})
+        # entry_ghost: name -> expression evaluated ONCE, on the state in which the loop is entered (before anything is
+        # havocked); the value is frozen and visible to the invariants and clauses of this loop
+        self.entry_ghost = dict(entry_ghost or {})
         # exit_post: clauses proved at EVERY exit of the loop (exhaustion and break); the code after the loop is
         # then executed once, from the loop-head state with everything the loop may change havocked again and
         # these clauses assumed (instead of once per exit path)
